@@ -60,6 +60,7 @@ class TLCStuck(TLCError):
 
 
 IDLE = 300
+_LOG = os.environ.get('VERIF_TLC_LOG')          # diagnostic: TLC's own progress lines are appended to this file
 
 
 def run(module, cfg=None, workers=16, **kw):
@@ -156,6 +157,9 @@ def _run_once(module, cfg=None, workers=16, simulate=None, depth=None, seed=None
                 if line.startswith('<<'):
                     res.tuples.append(line.rstrip('\n'))
                 other.append(line)
+                if _LOG and (line.startswith(('Progress', 'Finished', 'Starting', 'Computing', 'Error')) or 'states generated' in line):
+                    with open(_LOG, 'a') as lf:
+                        lf.write('[%d %s %.0fs] %s' % (proc.pid, os.path.basename(cfg), time.time() - t0, line))
                 if line.startswith('Progress('):
                     mp_ = _RE_PROGRESS.search(line)
                     if mp_:
